@@ -718,6 +718,7 @@ def combine_chunk_results_for_factorized_key(
     """
     combined = chunks[0]
 
+    counts_tracked = counts is not None
     if counts is None:
         counts = np.zeros(len(chunks))
         combined_count = 0
@@ -726,7 +727,10 @@ def combine_chunk_results_for_factorized_key(
 
     for chunk, count in zip(chunks[1:], counts[1:]):
         combined = reduce_array_pair(
-            combined, chunk, getattr(ScalarFuncs, reduce_func_name)
+            combined,
+            chunk,
+            getattr(ScalarFuncs, reduce_func_name),
+            counts=combined_count if counts_tracked else None,
         )
         combined_count = combined_count + count
 
